@@ -73,10 +73,18 @@ def _coq_bytes(b):
     return '(' + ' +++ '.join(parts) + ')' if len(parts) > 1 else parts[0]
 
 
-def coq_crosscheck(pairs, limit=200):
+def coq_crosscheck(pairs, limit=200, byte_budget=60000):
     """Evaluate `handle` inside Coq (vm_compute) on recorded requests and compare with the replies the
     extracted program gave.  Returns (n_checked, n_equal, log)."""
-    pairs = pairs[:limit]
+    # string literals are expensive for coqc (one constructor per byte): smallest requests first, bounded volume
+    pairs = sorted(pairs, key=lambda ab: len(ab[0]) + len(ab[1]))
+    chosen, vol = [], 0
+    for a, b in pairs:
+        if len(chosen) >= limit or vol + len(a) + len(b) > byte_budget:
+            break
+        chosen.append((a, b))
+        vol += len(a) + len(b)
+    pairs = chosen
     if not pairs:
         return 0, 0, ''
     lines = ['From BSE Require Import Model.Val Extract.Dispatch.',
